@@ -1,6 +1,7 @@
 import Acra.Model.ParserAligned
 import Acra.Lemmas.Bits
 import Acra.Lemmas.ReviewC08Records
+import Acra.Lemmas.RecordsErr
 namespace Acra.Props.C08
 open Acra.Py Acra.Model.ParserAligned Acra.Gen.ParserAligned
 
@@ -107,4 +108,99 @@ theorem ParserAlignedPacket_items_stride (t : Packet) (buf : Bytes) (h : (Packet
     intro _
     have := Acra.Lemmas.ReviewC08.decOff_items_stride_exact decBlock moreLt buf 8 decBlock_advance_ge _ 0 bs hd
     simpa using this
+/-! ### packet-level outcome list (review B4): `ParserAlignedPacket.unpack` returns, or raises `ValueError` or
+    `struct.error`; each kind is the exception of the FIRST block that fails, and the block-level kinds are
+    characterised on the bytes -/
+
+/-- the block decoder's exceptions, on the bytes (`q` = the low nine bits of the first half word):
+    `struct.error` iff the 8-byte header is incomplete; `ValueError` iff it is complete and `q < 2` or the
+    `4·q` bytes of the block are not all there -/
+theorem ParserAlignedBlock_error_iff (t : Block) (buf : Bytes) :
+    ((Block.unpack t buf).2 = .error .struct ↔ buf.length < 8) ∧
+    ((Block.unpack t buf).2 = .error .value ↔
+      8 ≤ buf.length ∧ (beNat (buf.take 2) % 512 < 2 ∨ buf.length < 4 * (beNat (buf.take 2) % 512))) := by
+  by_cases h8 : 8 ≤ buf.length
+  · have hh : ∃ mc bi et, structUnpackFrom PAB_FORMAT buf 0 = .ok [beNat (buf.take 2), mc, bi, et] := by
+      simp only [structUnpackFrom, PAB_FORMAT, Fmt.size, codesSize, Code.size, unpackCodes, decInt, List.drop_zero]
+      have : 0 + (2 + (1 + (1 + (4 + 0)))) ≤ buf.length := by omega
+      simp only [this, if_true]
+      exact ⟨_, _, _, rfl⟩
+    obtain ⟨mc, bi, et, hh⟩ := hh
+    by_cases hq : beNat (buf.take 2) % 512 < 2
+    · have hr : (Block.unpack t buf).2 = .error .value := by
+        simp only [Block.unpack, hh, Acra.Lemmas.Bits.and_1FF, PAB_HEADERLEN, hq, if_true]
+      rw [hr]
+      exact ⟨⟨fun h => (by cases h), fun h => (by omega)⟩, fun _ => ⟨h8, Or.inl hq⟩, fun _ => rfl⟩
+    · by_cases hc : buf.length < 8 + (beNat (buf.take 2) % 512 - 2) * 4
+      · have hr : (Block.unpack t buf).2 = .error .value := by
+          simp only [Block.unpack, hh, Acra.Lemmas.Bits.and_1FF, PAB_HEADERLEN, hq, if_false, hc, if_true]
+        rw [hr]
+        exact ⟨⟨fun h => (by cases h), fun h => (by omega)⟩, fun _ => ⟨h8, Or.inr (by omega)⟩, fun _ => rfl⟩
+      · have hr : (Block.unpack t buf).2 = .ok (beNat (buf.take 2) % 512 * 4) := by
+          simp only [Block.unpack, hh, Acra.Lemmas.Bits.and_1FF, PAB_HEADERLEN, hq, if_false, hc]
+        rw [hr]
+        exact ⟨⟨fun h => (by cases h), fun h => (by omega)⟩, fun h => (by cases h), fun h => (by omega)⟩
+  · have : structUnpackFrom PAB_FORMAT buf 0 = .error .struct := by
+      simp only [structUnpackFrom, PAB_FORMAT, Fmt.size, codesSize, Code.size]
+      have : ¬ (0 + (2 + (1 + (1 + (4 + 0)))) ≤ buf.length) := by omega
+      simp [this]
+    have hr : (Block.unpack t buf).2 = .error .struct := by simp only [Block.unpack, this]
+    rw [hr]
+    exact ⟨⟨fun _ => (by omega), fun _ => rfl⟩, fun h => (by cases h), fun h => absurd h.1 h8⟩
+
+/-- `ParserAlignedPacket.unpack` ends with exception `e` exactly when, after decoding the blocks `bs` one after
+    the other from offset 0, it stands at an offset `o` inside the buffer where the block decoder raises `e` -/
+theorem ParserAlignedPacket_unpack_error_iff (t : Packet) (buf : Bytes) (e : Err) :
+    (Packet.unpack t buf).2 = .error e ↔
+      ∃ bs o, Acra.Lemmas.RecordsErr.Reach decBlock moreLt buf 0 bs o ∧ o < buf.length ∧
+        (Block.unpack Block.fresh (buf.drop o)).2 = .error e := by
+  have key := Acra.Lemmas.RecordsErr.decOff_error_iff decBlock moreLt buf decBlock_progress (buf.length + 1) 0 (by omega) e
+  have hstep : ∀ o, decBlock (buf.drop o) = .error e ↔ (Block.unpack Block.fresh (buf.drop o)).2 = .error e := by
+    intro o
+    simp only [decBlock]
+    cases Block.unpack Block.fresh (buf.drop o) with
+    | mk b r => cases r <;> simp
+  simp only [Packet.unpack]
+  cases hd : decOff decBlock moreLt buf (buf.length + 1) 0 with
+  | ok bs =>
+    simp only [reduceCtorEq, false_iff]
+    rintro ⟨bs', o, hr, ho, he⟩
+    have := key.2 ⟨bs', o, hr, by simpa [moreLt] using ho, (hstep o).2 he⟩
+    rw [hd] at this; cases this
+  | error e' =>
+    simp only [Except.error.injEq]
+    constructor
+    · rintro rfl
+      obtain ⟨bs, o, hr, hm, he⟩ := key.1 hd
+      exact ⟨bs, o, hr, by simpa [moreLt] using hm, (hstep o).1 he⟩
+    · rintro ⟨bs, o, hr, ho, he⟩
+      have := key.2 ⟨bs, o, hr, by simpa [moreLt] using ho, (hstep o).2 he⟩
+      rw [hd] at this
+      cases this; rfl
+
+/-- the outcome list: a value, `ValueError`, or `struct.error` — nothing else, in particular never `fuel` -/
+theorem ParserAlignedPacket_unpack_outcomes (t : Packet) (buf : Bytes) :
+    (Packet.unpack t buf).2 = .ok () ∨ (Packet.unpack t buf).2 = .error .value ∨
+    (Packet.unpack t buf).2 = .error .struct := by
+  cases hr : (Packet.unpack t buf).2 with
+  | ok u => exact Or.inl rfl
+  | error e =>
+    obtain ⟨bs, o, _, _, he⟩ := (ParserAlignedPacket_unpack_error_iff t buf e).1 hr
+    rcases ParserAlignedBlock_unpack_total Block.fresh (buf.drop o) with ⟨n, hn⟩ | hv | hs
+    · rw [he] at hn; cases hn
+    · rw [he] at hv; cases hv; exact Or.inr (Or.inl rfl)
+    · rw [he] at hs; cases hs; exact Or.inr (Or.inr rfl)
+
+/-- every outcome is reachable: `wPAP` is accepted; a second block of three quadbytes cut by one byte / declaring one quadbyte →
+    `ValueError`; three stray bytes after the first block → `struct.error`.  In each case the failing block is the
+    SECOND one (the first was decoded: `Reach` with one block, offset 12). -/
+example : (Packet.unpack Packet.fresh wPAP).2 = .ok () := by rfl
+example : (Packet.unpack Packet.fresh (wPAP.take 12 ++ [0, 3, 0, 0, 0, 0, 0, 0, 1, 2, 3])).2 = .error .value := by rfl
+example : (Packet.unpack Packet.fresh (wPAP.take 12 ++ [0, 1, 0, 0, 0, 0, 0, 0])).2 = .error .value := by rfl
+example : (Packet.unpack Packet.fresh (wPAP.take 15)).2 = .error .struct := by rfl
+example : Acra.Lemmas.RecordsErr.Reach decBlock moreLt (wPAP.take 15) 0
+    [{ Block.fresh with quadbytes := 3, messagecount := 0, busid := 1, elapsedtime := 131077, payload := [1, 2, 3, 4] }] 12 ∧
+    (Block.unpack Block.fresh ((wPAP.take 15).drop 12)).2 = .error .struct :=
+  ⟨⟨by rfl, 12, by rfl, by rfl⟩, by rfl⟩
+
 end Acra.Props.C08
